@@ -158,13 +158,17 @@ def _msg_label(w, m, ids):
     return (m.method, '', 0, True, '')
 
 
+FUNCS = {'_refresh_task_state': 'refresh', '_check_and_fix_integrity': 'integrity', '_continue_task': 'continue',
+         '_complete_task': 'complete', '_fail_task_if_incomplete': 'timeout'}
+
+
 def _job_label(w, row, ids):
     jid, ex, cap, fn, key, args = row
     func = fn.split('.')[-1]
-    func = {'_refresh_task_state': 'refresh', '_check_and_fix_integrity': 'integrity'}.get(func, func)
+    func = FUNCS.get(func, func)
     t = ''
     mm = re.search(r'[0-9a-f]{8}-[0-9a-f]{4}-[0-9a-f]{4}-[0-9a-f]{4}-[0-9a-f]{12}', str(args))
-    if func == 'refresh' and mm:
+    if func != 'integrity' and mm:
         t = ids['tk_rev'].get(mm.group(0), '').split('/')[-1].split('#')[0]
     return func, t
 
@@ -189,7 +193,8 @@ def compare(model, obs, w):
         if n not in rows:
             return 'task %s: model %s, code has no row' % (n, mt['state'])
         x = rows[n]
-        if (mt['state'], sorted(mt['next']), mt['processed'], mt['errHandled']) != (x['state'], sorted(x['next']), x['processed'], x['errHandled']):
+        if (mt['state'], sorted(mt['next']), mt['processed'], mt['errHandled'], mt.get('retryNo', 0)) != \
+                (x['state'], sorted(x['next']), x['processed'], x['errHandled'], x.get('retryNo', 0)):
             return 'task %s: model %s, code %s' % (n, (mt['state'], sorted(mt['next']), mt['processed'], mt['errHandled']),
                                                    (x['state'], sorted(x['next']), x['processed'], x['errHandled']))
     for n, seq in model['ax'].items():
@@ -284,7 +289,7 @@ def run_behaviour(prog, states, seed=0):
                         lab = _job_label(w, rows[x[1]], ids)
                     else:
                         j = w.jobs.get(x[1], {})
-                        lab = ({'_refresh_task_state': 'refresh', '_check_and_fix_integrity': 'integrity'}.get(j.get('func'), j.get('func')), None)
+                        lab = (FUNCS.get(j.get('func'), j.get('func')), None)
                     if lab[0] == e['func'] and (lab[1] is None or lab[1] == e['t']):
                         cands.append(x)
                 if not cands:
